@@ -6,7 +6,7 @@ create_exception chain, the `[1:]` slice) + correspondence of the hand-written m
 code on generated programs + direct oracle (original traceback vs translated stack, type rule,
 message, every source-map entry against an independent reading of the case source).
 """
-import ast, json, multiprocessing, os, random, shutil, sys, tempfile, time, traceback
+import ast, json, multiprocessing, os, random, shutil, signal, sys, tempfile, time, traceback
 import common
 from common import sexp, parse_sexp
 import c12_gen
@@ -33,6 +33,14 @@ def _worker_init(repo, base=None):
     c12_real.install()
 
 
+class _CaseTimeout(BaseException):
+    pass
+
+
+def _on_alarm(signum, frame):
+    raise _CaseTimeout()
+
+
 def _worker_run(job):
     import c12_real
     idx, case, want_corr = job
@@ -46,7 +54,14 @@ def _worker_run(job):
                      'recursive': case.get('recursive', True)}
         name = 'c12case_%s' % case['tag']
         path = os.path.join(_W['dir'], name + '.py')
-        res = c12_real.analyse_case(built, path, name, want_corr)
+        signal.signal(signal.SIGALRM, _on_alarm)
+        signal.alarm(120)            # a case that does not terminate is a semantic divergence (C01's domain), not a hang of the check
+        try:
+            res = c12_real.analyse_case(built, path, name, want_corr)
+        except _CaseTimeout:
+            res = {'status': 'timeout', 'fails': [], 'corr': [], 'stats': {}}
+        finally:
+            signal.alarm(0)
         res['path'] = path
         res['src'] = built['src']; res['entry'] = built['entry']; res['args'] = built['args']; res['fn_conv'] = built.get('fn_conv', {})
         res['recursive'] = built.get('recursive', True)
